@@ -20,11 +20,14 @@ Record(t)         == Running(t) /\ cnt' = cnt + 1 /\ Finish(t) /\ UNCHANGED lpen
 Discard(t)        == Running(t) /\ Finish(t) /\ UNCHANGED <<cnt, lpend>>
 ClosureShared     == cnt' = cnt + 1 /\ UNCHANGED <<tm, lpend>>
 ClosureLocal      == lpend' = lpend + 1 /\ UNCHANGED <<tm, cnt>>          \* lands in the local histogram
+\* the timed closure itself uses the same histogram (a nested timed section): its observation and the closure's both count
+ClosureSharedRe   == cnt' = cnt + 2 /\ UNCHANGED <<tm, lpend>>
+ClosureLocalRe    == lpend' = lpend + 2 /\ UNCHANGED <<tm, cnt>>
 LocalFlush        == cnt' = cnt + lpend /\ lpend' = 0 /\ UNCHANGED tm
 Next == \/ \E t \in Timers : \E k \in {"shared", "local"} : Start(t, k)
         \/ \E t \in Timers : Record(t) \/ Discard(t)
-        \/ ClosureShared \/ ClosureLocal \/ LocalFlush
+        \/ ClosureShared \/ ClosureLocal \/ ClosureSharedRe \/ ClosureLocalRe \/ LocalFlush
 Spec == Init /\ [][Next]_vars
 \* a timer contributes at most once; the count never decreases
-AtMostOnce == [][cnt' >= cnt /\ cnt' - cnt <= IF lpend' = 0 /\ lpend > 0 THEN lpend ELSE 1]_vars
+AtMostOnce == [][cnt' >= cnt /\ cnt' - cnt <= IF lpend' = 0 /\ lpend > 0 THEN lpend ELSE 2]_vars
 =============================================================================
